@@ -189,6 +189,11 @@ pub trait Family {
     fn scenario_tags(_s: &Self::Scn) -> Vec<String> {
         vec![]
     }
+    /// Scale scenarios that legitimately run for seconds (announced to the parent, which
+    /// then suspends its stall detection for this run).
+    fn long_running(_s: &Self::Scn) -> bool {
+        false
+    }
     /// Rule text for evidence.
     fn rule() -> &'static str;
     /// Components: (real, stub)
